@@ -349,8 +349,8 @@ pub fn run(cfg: &Cfg) -> Report {
     let miri = cfg.layer == "miri";
     let mut rng = cfg.rng(141);
     let n = cfg.n(if miri { 30 } else { 20_000 }, 1_000_000);
-    let gc = GenCfg { max_members: 6, max_depth: 4, comments: true, deep_comments: false, custom_refs: true };
-    let gc_plain = GenCfg { max_members: 6, max_depth: 4, comments: false, deep_comments: false, custom_refs: true };
+    let gc = GenCfg { max_members: 6, max_depth: 4, comments: true, deep_comments: false, custom_refs: true, trailing_blanks: true };
+    let gc_plain = GenCfg { max_members: 6, max_depth: 4, comments: false, deep_comments: false, custom_refs: true, trailing_blanks: true };
     for k in 0..n {
         let tree = gen_iface(&mut rng, if k % 3 == 0 { &gc_plain } else { &gc });
         // owned form
